@@ -256,8 +256,8 @@ var plans = map[string]*plan{
 		Quick:          []batchSpec{{Test: "TestC05", N: 8, Timeout: 20 * m, Weight: 2}},
 		Thorough:       []batchSpec{{Test: "TestC05", N: 16, Timeout: 90 * m}},
 		EvalStats:      []string{"c05.attacks"},
-		Floors:         map[string]int64{"c05.attacks": 1300, "c05.broker_processes": 8, "c05.witness_messages": 8000, "classes": 40},
-		FloorsThorough: map[string]int64{"c05.attacks": 30000, "classes": 60},
+		Floors:         map[string]int64{"c05.attacks": 1200, "c05.broker_processes": 8, "c05.witness_messages": 8000, "classes": 25},
+		FloorsThorough: map[string]int64{"c05.attacks": 30000, "classes": 25},
 		Assumptions:    []string{"loopback TCP; read/write errors below the socket API cannot be injected from outside the broker process (they are in C09/C16 via the chaos conn)", "no address-space cap is imposed: after the fix of the 5-byte remaining length an unauthenticated connection can make the broker reserve at most 256 MiB"},
 	},
 }
